@@ -312,6 +312,86 @@ pub fn handle(op: &str, a: &[&str]) -> Option<String> {
             };
             Some(with_oracle(format!("ok read={rs} skip={ss}"), oracle))
         }
+        ("attr-unit", [e, sect, ah, h, ..]) => {
+            let e = endian(e)?;
+            let abbrev = unhex(ah)?;
+            let sec = unhex(h)?;
+            let (hd, abbrevs) = match crate::prop::c02::first_unit(sect, &sec, &abbrev, e) {
+                Ok(x) => x,
+                Err(x) => return Some(format!("err {}", rerr(&x))),
+            };
+            let mut raw = match hd.entries_raw(&abbrevs, None) {
+                Ok(r) => r,
+                Err(x) => return Some(format!("err {}", rerr(&x))),
+            };
+            let mut entry = gimli::DebuggingInformationEntry::null();
+            let mut parts: Vec<String> = Vec::new();
+            // (offset, [(name, form, raw payload)]) for the oracle
+            let mut seen: Vec<(usize, Vec<(u16, u16, String)>)> = Vec::new();
+            let mut end = "ok".to_string();
+            let mut oracle: Option<String> = None;
+            let mut n = 0;
+            while !raw.is_empty() && n < 200_000 {
+                n += 1;
+                match raw.read_entry(&mut entry) {
+                    Ok(_) => {
+                        let mut a = Vec::new();
+                        let mut o = Vec::new();
+                        for at in entry.attrs() {
+                            let (rv, nv) = (at.raw_value(), at.value());
+                            if !payload(&rv).same(&payload(&nv)) {
+                                oracle.get_or_insert(format!("normalise-payload at={} raw={} norm={}", entry.offset().0, value_s(&rv), value_s(&nv)));
+                            }
+                            a.push(format!("{}/{}/{}/{}", at.name().0, at.form().0, value_s(&rv), value_s(&nv)));
+                            o.push((at.name().0, at.form().0, payload(&rv).s()));
+                        }
+                        parts.push(format!("{}:{}", entry.offset().0, if a.is_empty() { "-".to_string() } else { a.join(",") }));
+                        seen.push((entry.offset().0, o));
+                    }
+                    Err(x) => {
+                        end = rerr(&x);
+                        break;
+                    }
+                }
+            }
+            if let Some(x) = find_exp(a, h) {
+                // `<offset>:<name|?>/<form>/<payload|?>,…;…` from llvm-dwarfdump -v
+                let want: Vec<&str> = if x == "-" { vec![] } else { x.split(';').collect() };
+                if end != "ok" {
+                    oracle.get_or_insert(format!("rejected-valid {end}"));
+                } else if want.len() != seen.len() {
+                    oracle.get_or_insert(format!("entries expected={} got={}", want.len(), seen.len()));
+                } else {
+                    'outer: for (w, (off, attrs)) in want.iter().zip(seen.iter()) {
+                        let Some((wo, wa)) = w.split_once(':') else { continue };
+                        if wo.parse::<usize>().ok() != Some(*off) {
+                            oracle.get_or_insert(format!("offset expected={wo} got={off}"));
+                            break;
+                        }
+                        let wl: Vec<&str> = if wa == "-" { vec![] } else { wa.split(',').collect() };
+                        if wl.len() != attrs.len() {
+                            oracle.get_or_insert(format!("attribute-count at={off} expected={} got={}", wl.len(), attrs.len()));
+                            break;
+                        }
+                        for (wx, (gn, gf, gp)) in wl.iter().zip(attrs.iter()) {
+                            let f: Vec<&str> = wx.splitn(3, '/').collect();
+                            if f.len() != 3 {
+                                continue;
+                            }
+                            if (f[0] != "?" && f[0] != gn.to_string()) || (f[1] != "?" && f[1] != gf.to_string()) {
+                                oracle.get_or_insert(format!("attribute at={off} expected={}/{} got={gn}/{gf}", f[0], f[1]));
+                                break 'outer;
+                            }
+                            if f[2] != "?" && f[2] != gp {
+                                oracle.get_or_insert(format!("value at={off} attr={gn}/{gf} expected={} got={gp}", f[2]));
+                                break 'outer;
+                            }
+                        }
+                    }
+                }
+            }
+            Some(with_oracle(format!("ok {} {end}", if parts.is_empty() { "-".to_string() } else { parts.join(";") }), oracle))
+        }
         ("attr-size", [asz, f, v, form]) => {
             let enc = encoding(asz, f, v)?;
             let form: u16 = form.parse().ok()?;
@@ -550,6 +630,94 @@ fn spec_s(name: u16, form: u16, imp: i64) -> String {
     if form == IMPLICIT_CONST { format!("{name}:{form}:{imp}") } else { format!("{name}:{form}") }
 }
 
+/// the value llvm-dwarfdump -v prints for an attribute, as a payload (`None`: not comparable)
+fn dump_value(form: &str, text: &str) -> Option<String> {
+    let hex_after = |pat: &str| -> Option<u128> {
+        let i = text.find(pat)? + pat.len();
+        let t: String = text[i..].chars().take_while(|c| c.is_ascii_hexdigit()).collect();
+        u128::from_str_radix(&t, 16).ok()
+    };
+    let inner = text.strip_prefix('(')?.trim_end();
+    let inner = inner.strip_suffix(')').unwrap_or(inner);
+    let plain_hex = || -> Option<u128> {
+        let t = inner.strip_prefix("0x")?;
+        if !t.is_empty() && t.chars().all(|c| c.is_ascii_hexdigit()) { u128::from_str_radix(t, 16).ok() } else { None }
+    };
+    let plain_dec = || -> Option<i128> { if !inner.is_empty() && inner.trim_start_matches('-').chars().all(|c| c.is_ascii_digit()) { inner.parse().ok() } else { None } };
+    match form {
+        "DW_FORM_strp" | "DW_FORM_line_strp" | "DW_FORM_strp_sup" | "DW_FORM_GNU_strp_alt" => hex_after("[0x").map(|v| P::N(v).s()),
+        "DW_FORM_string" => {
+            let t = inner.strip_prefix('"')?.strip_suffix('"')?;
+            if t.contains('"') || t.contains('\\') { None } else { Some(P::B(t.as_bytes().to_vec()).s()) }
+        }
+        "DW_FORM_ref1" | "DW_FORM_ref2" | "DW_FORM_ref4" | "DW_FORM_ref8" | "DW_FORM_ref_udata" => hex_after("cu + 0x").map(|v| P::N(v).s()),
+        "DW_FORM_ref_addr" | "DW_FORM_ref_sig8" | "DW_FORM_addr" | "DW_FORM_sec_offset" => hex_after("(0x").map(|v| P::N(v).s()),
+        "DW_FORM_flag_present" => Some(P::F(true).s()),
+        "DW_FORM_flag" => match inner {
+            "true" => Some(P::F(true).s()),
+            "false" => Some(P::F(false).s()),
+            _ => plain_hex().map(|v| P::F(v != 0).s()),
+        },
+        "DW_FORM_data1" | "DW_FORM_data2" | "DW_FORM_data4" | "DW_FORM_data8" | "DW_FORM_udata" => {
+            plain_hex().map(|v| P::N(v).s()).or_else(|| plain_dec().filter(|v| *v >= 0).map(|v| P::N(v as u128).s()))
+        }
+        "DW_FORM_sdata" | "DW_FORM_implicit_const" => plain_dec().map(|v| P::I(v as i64).s()),
+        "DW_FORM_strx" | "DW_FORM_strx1" | "DW_FORM_strx2" | "DW_FORM_strx3" | "DW_FORM_strx4" | "DW_FORM_addrx" | "DW_FORM_addrx1"
+        | "DW_FORM_addrx2" | "DW_FORM_addrx3" | "DW_FORM_addrx4" | "DW_FORM_GNU_str_index" | "DW_FORM_GNU_addr_index" => {
+            hex_after("indexed (").map(|v| P::N(v).s())
+        }
+        _ => None,
+    }
+}
+
+/// `attr-unit` lines for the compiler-built corpus, with what llvm-dwarfdump -v reports as expectation
+pub fn corpus_lines() -> Vec<String> {
+    let mut at_no = std::collections::HashMap::new();
+    let mut form_no = std::collections::HashMap::new();
+    for v in 0..=0xffffu16 {
+        if let Some(s) = DwAt(v).static_string() {
+            at_no.entry(s).or_insert(v);
+        }
+        if let Some(s) = DwForm(v).static_string() {
+            form_no.entry(s).or_insert(v);
+        }
+    }
+    let mut out = Vec::new();
+    for u in crate::prop::c02::corpus_units() {
+        let parts: Vec<String> = u
+            .dies
+            .iter()
+            .map(|d| {
+                let attrs: Vec<String> = d
+                    .attrs
+                    .iter()
+                    .map(|(n, f, v)| {
+                        format!(
+                            "{}/{}/{}",
+                            at_no.get(n.as_str()).map_or("?".to_string(), |x| x.to_string()),
+                            form_no.get(f.as_str()).map_or("?".to_string(), |x| x.to_string()),
+                            if u.relocatable
+                                && matches!(
+                                    f.as_str(),
+                                    "DW_FORM_strp" | "DW_FORM_line_strp" | "DW_FORM_strp_sup" | "DW_FORM_GNU_strp_alt" | "DW_FORM_sec_offset"
+                                        | "DW_FORM_addr" | "DW_FORM_ref_addr" | "DW_FORM_data4" | "DW_FORM_data8"
+                                )
+                            {
+                                "?".to_string()
+                            } else {
+                                dump_value(f, v).unwrap_or("?".into())
+                            }
+                        )
+                    })
+                    .collect();
+                format!("{}:{}", d.off - u.start, if attrs.is_empty() { "-".to_string() } else { attrs.join(",") })
+            })
+            .collect();
+        out.push(format!("attr-unit {} {} {} {} {}", u.endian, u.sect, u.abbrev_hex, u.unit_hex, exp_tok(&parts.join(";"), &u.unit_hex)));
+    }
+    out
+}
+
 pub fn gen(ctx: &Ctx, emit: &mut dyn FnMut(String)) {
     let mut rng = ctx.rng(3);
     let names = names();
@@ -765,6 +933,9 @@ pub fn gen(ctx: &Ctx, emit: &mut dyn FnMut(String)) {
         }
     }
     if ctx.tier == Tier::Thorough {
+        for l in corpus_lines() {
+            emit(l);
+        }
         // every (form, form) pair as neighbours, every encoding
         for &f1 in FORMS {
             for &f2 in FORMS {
